@@ -73,7 +73,7 @@ func registerMore() {
 			{Dir: "jrpc2", Name: "Harness_C02_single", Reach: []string{"dispatched", "silent", "single-reply"}},
 			{Dir: "jrpc2", Name: "Harness_selftest_wire", Reach: []string{"selftest-done", "selftest-broken-json"}, Tweak: delays(0, 1),
 				Bounds: map[string]string{"purpose": "engine validation: the inputs and expected replies of the repository's own TestServer_nonLibraryClient table (19 rows + 2 broken records) run through the engine; a mismatch makes the check inconclusive"}},
-			{Dir: "jrpc2", Name: "Harness_C02_envelope", Reach: []string{"answered", "alive", "padded"}},
+			{Dir: "jrpc2", Name: "Harness_C02_envelope", Reach: []string{"answered", "alive", "padded", "undeliverable-notification"}},
 			{Dir: "jrpc2", Name: "Harness_C02_batch", Reach: []string{"batch-reply"}, ThoroughOnly: true},
 		},
 	})
@@ -85,7 +85,9 @@ func registerMore() {
 		Outside:     []string{"schedules needing more delays or a preemption inside a critical section", "three or more records in flight (a 3-record configuration exceeded the thorough time budget)", "concurrent Stop during dispatch (C08 harness)"},
 		Assumptions: append([]string{jsonAssumption, "sync.Mutex/WaitGroup, channels, select and context are engine intrinsics; x/sync/semaphore and mds/queue are executed from source"}, commonAssumptions...),
 		Harnesses: []HarnessSpec{
-			{Dir: "jrpc2", Name: "Harness_C03_order", Reach: []string{"quiescent", "ordered-pair", "done"}, Tweak: delays(2, 2)},
+			{Dir: "jrpc2", Name: "Harness_C03_order", Reach: []string{"quiescent", "ordered-pair", "done"}, Tweak: delays(2, 3)},
+			{Dir: "jrpc2", Name: "Harness_C08_run", Reach: []string{"restarted"}, Tweak: delays(1, 2),
+				Bounds: map[string]string{"purpose": "notifications still queued when the server is stopped (1..4 notifications, as single objects or one-element batches, the first gated) run one after the other in arrival order"}},
 		},
 	})
 	addProp(&PropSpec{
@@ -236,6 +238,8 @@ func registerMore2() {
 			{Dir: "jrpc2", Name: "Harness_C01_batch", Reach: []string{"no-output", "result", "error", "unmarshalable"}, Tweak: delays(2, 3)},
 			{Dir: "jrpc2", Name: "Harness_C03_order", Reach: []string{"done"}, Tweak: delays(1, 2),
 				Bounds: map[string]string{"purpose": "several inbound messages in flight on a started server: exactly one response per call id across all outbound messages, none for notifications"}},
+			{Dir: "jrpc2", Name: "Harness_C09_step", Reach: []string{"reply-matched"},
+				Bounds: map[string]string{"purpose": "the inbound filter of a push-enabled server hands every request on to dispatch, in order, whatever callbacks are outstanding (a call whose id equals an outstanding callback's id is still a call)"}},
 		},
 	})
 	clientExpl := "Inductive single-step verification of the client: from an arbitrary state allowed by the invariant (0..2 pending requests with distinct decimal ids below a symbolic id counter, each with an empty unsettled slot; running or stopped) one real operation is executed with symbolic arguments - deliverLocked of an arbitrary inbound member, a whole Client.Batch of 1..3 specs (goroutine, then its replies in reverse order), waitComplete after the context ended (before/after the reply), stopLocked with each cause twice, operations on a stopped client - and the invariant plus the per-step contract are asserted. "
@@ -266,6 +270,7 @@ func registerMore2() {
 		Assumptions: append([]string{jsonAssumption, threadAssumption}, commonAssumptions...),
 		Harnesses: []HarnessSpec{
 			{Dir: "jrpc2", Name: "Harness_C10_client", Reach: []string{"closed"}},
+			{Dir: "jrpc2", Name: "Harness_C02_envelope", Reach: []string{"answered", "padded", "undeliverable-notification"}},
 			{Dir: "jrpc2", Name: "Harness_C08_run", Reach: []string{"restarted"}, Tweak: delays(1, 2)},
 			{Dir: "jrpc2", Name: "Harness_C03_order", Reach: []string{"done"}, Tweak: delays(1, 2)},
 			{Dir: "jrpc2", Name: "Harness_C09_step", Reach: []string{"notified", "callback-replied"}},
@@ -281,6 +286,7 @@ func registerMore2() {
 		Harnesses: []HarnessSpec{
 			{Dir: "jrpc2", Name: "Harness_C06_opts", Reach: []string{"explicit", "default"}},
 			{Dir: "jrpc2", Name: "Harness_C06_run", Reach: []string{"done"}, Tweak: delays(2, 3)},
+			{Dir: "jrpc2", Name: "Harness_C06_callback", Reach: []string{"waiting-in-callback", "done"}},
 		},
 	})
 	addProp(&PropSpec{
